@@ -19,6 +19,12 @@ class Raised(Exception):
         self.node = node
 
 
+class Obj(dict):
+    """A model object for finite-domain evaluation: attribute access reads / writes its keys."""
+    def __hash__(self) -> int:  # type: ignore[override]
+        return id(self)
+
+
 class _Return(Exception):
     def __init__(self, node: ast.Return, env: dict[str, Any]) -> None:
         self.node, self.env = node, env
@@ -33,6 +39,18 @@ def eval_expr(e: ast.expr, env: dict[str, Any], oracle: Oracle | None = None) ->
         raise AnalysisError(f"unbound name {e.id} in finite-domain evaluation")
     if isinstance(e, ast.Attribute) and ast.unparse(e) in env:
         return env[ast.unparse(e)]
+    if isinstance(e, ast.Attribute):
+        # attribute of a model object (Obj): a finite record of named fields; of None: AttributeError
+        try:
+            base_ = eval_expr(e.value, env, oracle)
+        except AnalysisError:
+            base_ = AnalysisError
+        if isinstance(base_, Obj):
+            if e.attr in base_:
+                return base_[e.attr]
+            raise Raised(ast.Raise(exc=ast.Name(id="AttributeError", ctx=ast.Load()), cause=None))
+        if base_ is None:
+            raise Raised(ast.Raise(exc=ast.Name(id="AttributeError", ctx=ast.Load()), cause=None))
     if isinstance(e, ast.UnaryOp):
         v = eval_expr(e.operand, env, oracle)
         if isinstance(e.op, ast.USub):
@@ -258,6 +276,15 @@ def exec_body(stmts: list[ast.stmt], env: dict[str, Any], oracle: Oracle | None 
                 base = eval_expr(tg.value, env, oracle)
                 if isinstance(base, dict):
                     base[eval_expr(tg.slice, env, oracle)] = eval_expr(st.value, env, oracle)
+                    continue
+            if isinstance(tg, ast.Attribute):
+                val_ = eval_expr(st.value, env, oracle)
+                if ast.unparse(tg) in env:
+                    env[ast.unparse(tg)] = val_
+                    continue
+                base_ = eval_expr(tg.value, env, oracle)
+                if isinstance(base_, Obj):
+                    base_[tg.attr] = val_
                     continue
             if not isinstance(tg, ast.Name):
                 raise AnalysisError(f"assignment outside the language: {ast.unparse(st)}")
